@@ -54,7 +54,14 @@ def block_case(work, geom, proc_crs, overlap, max_block_mem=None, nbands=1, tag=
             res['error'] = 'BlockSizeError-auto'
             return res
         try:
+            # what the iterator yields is a function of (geometry, overlap, max_block_mem) only - not of how the open reader was used before: a
+            # look at the first block of an abandoned iterator first, then the iteration that is judged, then a second complete one
+            peek = reader.block_pairs(overlap=tuple(overlap), max_block_mem=max_block_mem)
+            next(peek, None)
+            del peek
             bps = list(reader.block_pairs(overlap=tuple(overlap), max_block_mem=max_block_mem))
+            again = list(reader.block_pairs(overlap=tuple(overlap), max_block_mem=max_block_mem))
+            res['repeat_same'] = again == bps
         except errors.BlockSizeError:
             res['error'] = 'BlockSizeError-overlap'
             return res
